@@ -56,6 +56,8 @@ def header_extra(spec):
         ex.append('-%d' % w)
     if spec.get('undeclared'):
         ex.append('[undeclared %s]' % ' '.join(str(u) for u in spec['undeclared']))
+    if spec.get('droop_line'):
+        ex.append('[droop %s]' % spec['droop_line'])
     return ' '.join(ex)
 
 
